@@ -1,26 +1,27 @@
-"""known_findings.jsonl: committed, never written at run time.
+"""known_findings.txt: committed, never written at run time.
 
-One JSON object per line: {"status": "finding"|"fixed", "property", "key", "what", "commit"?}.
-`key` is the violation signature an engine computes; a listed `finding` turns a confirmed
+    finding: property=<id> key=<violation signature> :: <what fails>
+    fixed: property=<id> <commit> <what failed>
+
+`key` is the violation signature an engine computes.  A listed `finding` turns a confirmed
 violation with exactly that key into a KNOWN-FINDING line; `fixed` lines suppress nothing.
 """
 import os
-import json
+import re
 
 from . import env
 
+_F = re.compile(r'^finding:\s+property=(\S+)\s+key=(.+?)\s+::\s+(.*)$')
+
 
 def load(prop):
-    path = os.path.join(env.VERIF_DIR, 'known_findings.jsonl')
+    path = os.path.join(env.VERIF_DIR, 'known_findings.txt')
     out = {}
     if not os.path.exists(path):
         return out
     with open(path) as f:
         for line in f:
-            line = line.strip()
-            if not line or line.startswith('#'):
-                continue
-            rec = json.loads(line)
-            if rec.get('property') == prop and rec.get('status') == 'finding':
-                out[rec['key']] = rec
+            m = _F.match(line.strip())
+            if m and m.group(1) == prop:
+                out[m.group(2)] = dict(property=prop, key=m.group(2), what=m.group(3))
     return out
